@@ -41,7 +41,12 @@ def app_cases(tier, rng):
             for _ in range(L + 1):
                 if rng.random() < 0.4: st = rng.choice(STATES)
                 script.append(st)
-            acts.append(action(ids, aid(j % 4, j, False, False), [], [], [c_script('KExplicit', script)]))
+            conds = [c_script('KExplicit', script)]
+            if rng.random() < 0.4:     # events-only blocker: the events are withheld on some frames, the durations must not notice
+                conds.append(c_script('(KBlocker true)', [rng.choice(['SFired', 'SFired', 'SNone']) for _ in range(L + 1)]))
+            if rng.random() < 0.2:     # plain blocker: forces None on some frames
+                conds.append(c_script('(KBlocker false)', [rng.choice(['SFired', 'SFired', 'SFired', 'SNone']) for _ in range(L + 1)]))
+            acts.append(action(ids, aid(j % 4, j, False, False), [], [], conds))
         c = rng.choice([0, 1])
         cfg = {(c, 0): spec(acts)}
         steps = [sop(spawn(0, [c]))]
@@ -66,7 +71,7 @@ STAGES = [dict(name='data', mode='unit', coq='Check.C10c', cases=cases, nontrivi
 
 STAGES.append(dict(name='virtual', mode='app', coq='Check.C10a', cases=app_cases, nontrivial=nontrivial, shard=25,
                    exhaustive={'thorough': False, 'quick': False},
-                   rule='real App with TimeUpdateStrategy::ManualDuration: 1-3 actions driven by sticky scripted states over 6-30 frames, real deltas m*2^-e s and some beyond '
+                   rule='real App with TimeUpdateStrategy::ManualDuration: 1-3 actions driven by sticky scripted states (some with a scripted events-only or plain blocker) over 6-30 frames, real deltas m*2^-e s and some beyond '
                         'the 250 ms clamp, relative speed changing among {0,1/4,1/2,1,2,4}, pauses, a rebuild in the middle; polled durations and event payloads are recomputed '
                         'from the polled states and (clamped real delta x speed, 0 while paused)'))
 CLAUSES_A = {1: 'polled elapsed differs from the sum of virtual deltas since the action left None', 2: 'polled fired differs from the sum of virtual deltas over the latest run of frames whose previous state was Fired',
